@@ -301,6 +301,28 @@ def run(prog: Program, L: Ledger) -> None:
             break
     # the component loop: the one loop that stores into the result
     stores = [n for n in walk_no_nested(sm.node) if isinstance(n, ast.Assign) and any(isinstance(t, ast.Subscript) and norm(t.value) == res for t in n.targets)]
+    if len(stores) > 1:
+        # a store into the result outside the component loop whose selector is computed from the result's own values
+        # (`labels[labels >= 0] = …`) cannot tell a label written for an admitted component from a supplied default that
+        # happens to satisfy the same test: atoms outside admitted molecules lose their default
+        loops_ = [s_ for s_ in walk_no_nested(sm.node) if isinstance(s_, ast.For)]
+        inl_ = Inliner(sm.node)
+        for st_ in stores:
+            if any(x_ is st_ for lp_ in loops_ for x_ in ast.walk(lp_)):
+                continue
+            for t_ in st_.targets:
+                if isinstance(t_, ast.Subscript) and norm(t_.value) == res:
+                    sel_ = t_.slice
+                    if isinstance(sel_, ast.Name):
+                        # one hop: what the selector local was bound to (the result local itself stays a name)
+                        b_ = [a_.value for a_ in walk_no_nested(sm.node) if isinstance(a_, ast.Assign) and len(a_.targets) == 1 and isinstance(a_.targets[0], ast.Name) and a_.targets[0].id == sel_.id]
+                        if len(b_) == 1:
+                            sel_ = b_[0]
+                    names_ = {n_.id for n_ in ast.walk(sel_) if isinstance(n_, ast.Name)} - {"np", "numpy"}
+                    if names_ and names_ <= {res}:
+                        L.violation("R2", "search_molecules:rewrite-after-loop", f"{rel2}:{st_.lineno}",
+                                    f"`{norm(st_)[:100]}` rewrites, after the component loop, every entry of the result selected by the result's own values (`{norm(sel_)[:60]}`): entries that still hold the supplied default are rewritten together with the labels",
+                                    "search_molecules(atoms, cutoff, required_size=k, default_array=<previous labelling, values ≥ 0>): atoms of rejected components do not keep the supplied default", norm(st_)[:100])
     if len(stores) != 1:
         raise AnalysisError(f"search_molecules: expected one store into `{res}`, found {len(stores)}")
     store = stores[0]
